@@ -116,57 +116,30 @@ impl Router {
         if let Some(((_, path_rules), trie_matches)) =
             self.tree.lookup_with_path(hostname_b, true, trie_path)
         {
-            let mut prefix_length = 0;
+            // Rank every matching candidate and keep the best one, so the
+            // answer depends on the set of rules and never on the order in
+            // which they were added: EQUALS over REGEX over PREFIX, then the
+            // longest prefix, then method-specific over method-agnostic.
+            // Candidates of equal rank (two REGEX rules) keep the documented
+            // "undefined ordering": the first one in the list stays.
+            let mut best_rank: (u8, usize, u8) = (0, 0, 0);
             let mut matched: Option<(&PathRule, &Route)> = None;
 
             for (rule, method_rule, route) in path_rules {
-                match rule.matches(path_b) {
-                    PathRuleResult::Regex | PathRuleResult::Equals => {
-                        match method_rule.matches(method) {
-                            MethodRuleResult::Equals => {
-                                return Ok(RouteResult::new_with_trie(
-                                    hostname_b,
-                                    trie_matches,
-                                    path_b,
-                                    rule,
-                                    route,
-                                ));
-                            }
-                            MethodRuleResult::All => {
-                                prefix_length = path_b.len();
-                                matched = Some((rule, route));
-                            }
-                            MethodRuleResult::None => {}
-                        }
-                    }
-                    PathRuleResult::Prefix(size) => {
-                        if size >= prefix_length {
-                            match method_rule.matches(method) {
-                                // FIXME: the rule order will be important here
-                                MethodRuleResult::Equals => {
-                                    // Longest-prefix wins: the selected
-                                    // length is monotonically non-decreasing
-                                    // across the candidate scan.
-                                    debug_assert!(
-                                        size >= prefix_length,
-                                        "longest-prefix selection must never shrink the match length",
-                                    );
-                                    prefix_length = size;
-                                    matched = Some((rule, route));
-                                }
-                                MethodRuleResult::All => {
-                                    debug_assert!(
-                                        size >= prefix_length,
-                                        "longest-prefix selection must never shrink the match length",
-                                    );
-                                    prefix_length = size;
-                                    matched = Some((rule, route));
-                                }
-                                MethodRuleResult::None => {}
-                            }
-                        }
-                    }
-                    PathRuleResult::None => {}
+                let method_rank = match method_rule.matches(method) {
+                    MethodRuleResult::Equals => 1,
+                    MethodRuleResult::All => 0,
+                    MethodRuleResult::None => continue,
+                };
+                let rank = match rule.matches(path_b) {
+                    PathRuleResult::Equals => (2, 0, method_rank),
+                    PathRuleResult::Regex => (1, 0, method_rank),
+                    PathRuleResult::Prefix(size) => (0, size, method_rank),
+                    PathRuleResult::None => continue,
+                };
+                if matched.is_none() || rank > best_rank {
+                    best_rank = rank;
+                    matched = Some((rule, route));
                 }
             }
 
